@@ -11,10 +11,11 @@
                                    the server shells: which OnDel* callback follows a refusal
    One [event] is one serialised happening (a callback, an API call, a tick, the
    end of a connection, the outcome of a relay attempt).  The asynchronous
-   completions lal performs in its own goroutines (the Del of a relay-pull
-   session it has disposed, the Del of a PS publisher it has disposed, the Del
-   of a relay-push session) are executed at the end of the step that caused
-   them ([settle]); this is the serialisation the harness enforces.
+   completions lal performs in its own goroutines for sessions lal itself has
+   disposed (the Del of a relay-pull session, of a PS publisher, of a
+   relay-push session) are part of the step that disposed the session, after
+   the callback that did so has returned; this is the serialisation the harness
+   enforces (it awaits that Del before the next event).
 
    [fixes] selects between the pinned tree (all false) and the repaired code.
    No proofs in this file. *)
@@ -56,8 +57,7 @@ Record pullp := mk_pullp {
   pp_last : Z;               (* lastHasOutTs *)
   pp_pulling : bool;         (* isSessionPulling *)
   pp_rtmp : option N;        (* rtmpSession: index of the attached attempt *)
-  pp_rtsp : option N;        (* rtspSession *)
-  pp_closed : option N       (* attached session disposed by lal, its Del still to come *)
+  pp_rtsp : option N         (* rtspSession *)
 }.
 
 Record push := mk_push { pu_pushing : bool; pu_att : bool }.   (* pushProxy: isPushing, pushSession != nil *)
@@ -72,44 +72,38 @@ Record group := mk_group {
   g_pipe : option N;         (* rtmp2MpegtsRemuxer: the per-input pipeline created by addIn *)
   g_subs : list (subk * N);  (* the subscriber sets *)
   g_push : list push;        (* url2PushProxy, one entry per configured target *)
-  g_disposed : bool;         (* Dispose ran: subscriber sets are nil *)
-  g_ps_closed : option N     (* PS publisher disposed by lal, its Del still to come *)
+  g_disposed : bool          (* Dispose ran: subscriber sets are nil *)
 }.
 
 (* ---- field updates ------------------------------------------------------ *)
 Definition pp_set_run (p : pullp) (pulling : bool) (r s : option N) : pullp :=
   mk_pullp (pp_static p) (pp_api p) (pp_rtmp_url p) (pp_retry p) (pp_autostop p) (pp_count p) (pp_last p)
-           pulling r s (pp_closed p).
-Definition pp_set_closed (p : pullp) (c : option N) : pullp :=
-  mk_pullp (pp_static p) (pp_api p) (pp_rtmp_url p) (pp_retry p) (pp_autostop p) (pp_count p) (pp_last p)
-           (pp_pulling p) (pp_rtmp p) (pp_rtsp p) c.
+           pulling r s.
 Definition pp_set_count (p : pullp) (c : Z) : pullp :=
   mk_pullp (pp_static p) (pp_api p) (pp_rtmp_url p) (pp_retry p) (pp_autostop p) c (pp_last p)
-           (pp_pulling p) (pp_rtmp p) (pp_rtsp p) (pp_closed p).
+           (pp_pulling p) (pp_rtmp p) (pp_rtsp p).
 Definition pp_set_last (p : pullp) (t : Z) : pullp :=
   mk_pullp (pp_static p) (pp_api p) (pp_rtmp_url p) (pp_retry p) (pp_autostop p) (pp_count p) t
-           (pp_pulling p) (pp_rtmp p) (pp_rtsp p) (pp_closed p).
+           (pp_pulling p) (pp_rtmp p) (pp_rtsp p).
 Definition pp_set_api (p : pullp) (a : bool) : pullp :=
   mk_pullp (pp_static p) a (pp_rtmp_url p) (pp_retry p) (pp_autostop p) (pp_count p) (pp_last p)
-           (pp_pulling p) (pp_rtmp p) (pp_rtsp p) (pp_closed p).
+           (pp_pulling p) (pp_rtmp p) (pp_rtsp p).
 Definition pp_set_req (p : pullp) (rtmp : bool) (retry autostop : Z) : pullp :=
   mk_pullp (pp_static p) true rtmp retry autostop (pp_count p) (pp_last p)
-           (pp_pulling p) (pp_rtmp p) (pp_rtsp p) (pp_closed p).
+           (pp_pulling p) (pp_rtmp p) (pp_rtsp p).
 
 Definition g_set_pubs (g : group) (a b c d : option N) : group :=
-  mk_group (g_id g) a b c d (g_pp g) (g_pipe g) (g_subs g) (g_push g) (g_disposed g) (g_ps_closed g).
+  mk_group (g_id g) a b c d (g_pp g) (g_pipe g) (g_subs g) (g_push g) (g_disposed g).
 Definition g_set_pp (g : group) (p : pullp) : group :=
-  mk_group (g_id g) (g_rtmp g) (g_rtsp g) (g_cust g) (g_ps g) p (g_pipe g) (g_subs g) (g_push g) (g_disposed g) (g_ps_closed g).
+  mk_group (g_id g) (g_rtmp g) (g_rtsp g) (g_cust g) (g_ps g) p (g_pipe g) (g_subs g) (g_push g) (g_disposed g).
 Definition g_set_pipe (g : group) (p : option N) : group :=
-  mk_group (g_id g) (g_rtmp g) (g_rtsp g) (g_cust g) (g_ps g) (g_pp g) p (g_subs g) (g_push g) (g_disposed g) (g_ps_closed g).
+  mk_group (g_id g) (g_rtmp g) (g_rtsp g) (g_cust g) (g_ps g) (g_pp g) p (g_subs g) (g_push g) (g_disposed g).
 Definition g_set_subs (g : group) (s : list (subk * N)) : group :=
-  mk_group (g_id g) (g_rtmp g) (g_rtsp g) (g_cust g) (g_ps g) (g_pp g) (g_pipe g) s (g_push g) (g_disposed g) (g_ps_closed g).
+  mk_group (g_id g) (g_rtmp g) (g_rtsp g) (g_cust g) (g_ps g) (g_pp g) (g_pipe g) s (g_push g) (g_disposed g).
 Definition g_set_push (g : group) (p : list push) : group :=
-  mk_group (g_id g) (g_rtmp g) (g_rtsp g) (g_cust g) (g_ps g) (g_pp g) (g_pipe g) (g_subs g) p (g_disposed g) (g_ps_closed g).
+  mk_group (g_id g) (g_rtmp g) (g_rtsp g) (g_cust g) (g_ps g) (g_pp g) (g_pipe g) (g_subs g) p (g_disposed g).
 Definition g_set_disposed (g : group) : group :=
-  mk_group (g_id g) (g_rtmp g) (g_rtsp g) (g_cust g) (g_ps g) (g_pp g) (g_pipe g) (g_subs g) (g_push g) true (g_ps_closed g).
-Definition g_set_ps_closed (g : group) (c : option N) : group :=
-  mk_group (g_id g) (g_rtmp g) (g_rtsp g) (g_cust g) (g_ps g) (g_pp g) (g_pipe g) (g_subs g) (g_push g) (g_disposed g) c.
+  mk_group (g_id g) (g_rtmp g) (g_rtsp g) (g_cust g) (g_ps g) (g_pp g) (g_pipe g) (g_subs g) (g_push g) true.
 
 Definition is_some {A} (o : option A) : bool := match o with Some _ => true | None => false end.
 Definition opt_is (o : option N) (n : N) : bool := match o with Some m => N.eqb m n | None => false end.
@@ -182,38 +176,28 @@ Definition pull_if_needed (g : group) (now : Z) : group * bool * reason :=
   | (false, r) => (g, false, r)
   end.
 
-(* stopPull: retry counter reset; an attached session is disposed (its Del follows) *)
+(* stopPull: retry counter reset; an attached session is disposed (returned: its Del follows) *)
 Definition stop_pull (g : group) : group * option N :=
   let p := pp_set_count (g_pp g) 0%Z in
-  match pp_rtmp p with
-  | Some a => (g_set_pp g (pp_set_closed p (Some a)), Some a)
-  | None =>
-    match pp_rtsp p with
-    | Some a => (g_set_pp g (pp_set_closed p (Some a)), Some a)
-    | None => (g_set_pp g p, None)
-    end
-  end.
+  (g_set_pp g p, match pp_rtmp p with Some a => Some a | None => pp_rtsp p end).
 
-(* tickPullModule *)
-Definition tick_pull (g : group) (now : Z) : group * bool :=
+(* tickPullModule: (group, an attempt was started, attached session that was disposed) *)
+Definition tick_pull (g : group) (now : Z) : group * bool * option N :=
   let g1 := if has_sub g then g_set_pp g (pp_set_last (g_pp g) now) else g in
-  if should_auto_stop g1 now then (fst (stop_pull g1), false)
-  else let '(g2, started, _) := pull_if_needed g1 now in (g2, started).
+  if should_auto_stop g1 now then let '(g2, a) := stop_pull g1 in (g2, false, a)
+  else let '(g2, started, _) := pull_if_needed g1 now in (g2, started, None).
 
 (* delPullSession(session) for the attempt with index a *)
 Definition pull_del (fx : fixes) (g : group) (a : N) : group :=
   let p := g_pp g in
-  let p0 := pp_set_closed p (if opt_is (pp_closed p) a then None else pp_closed p) in
   if fx_f10 fx then
     if opt_is (pp_rtmp p) a || opt_is (pp_rtsp p) a
-    then del_in (g_set_pp g (pp_set_run p0 false None None))
-    else g_set_pp g (pp_set_run p0 false (pp_rtmp p) (pp_rtsp p))
-  else del_in (g_set_pp g (pp_set_run p0 false None None)).
+    then del_in (g_set_pp g (pp_set_run p false None None))
+    else g_set_pp g (pp_set_run p false (pp_rtmp p) (pp_rtsp p))
+  else del_in (g_set_pp g (pp_set_run p false None None)).
 
 (* delPsPubSession *)
-Definition ps_del (g : group) (s : N) : group :=
-  let g0 := g_set_ps_closed g (if opt_is (g_ps_closed g) s then None else g_ps_closed g) in
-  if opt_is (g_ps g0) s then del_in g0 else g0.
+Definition ps_del (g : group) (s : N) : group := if opt_is (g_ps g) s then del_in g else g.
 
 (* isPullModuleAlive / IsInactive *)
 Definition pull_alive (g : group) (now : Z) : bool :=
@@ -278,8 +262,8 @@ Definition put_group (st : state) (s : N) (g : group) : state := st_set_groups s
 (* NewGroup (initRelayPullByConfig, initRelayPushByConfig) *)
 Definition new_group (cf : config) (id : N) (now : Z) : group :=
   mk_group id None None None None
-    (mk_pullp (cf_static cf) false true (-1)%Z 0%Z 0%Z now false None None None)
-    None [] (repeat (mk_push false false) (cf_npush cf)) false None.
+    (mk_pullp (cf_static cf) false true (-1)%Z 0%Z 0%Z now false None None)
+    None [] (repeat (mk_push false false) (cf_npush cf)) false.
 
 (* getOrCreateGroup *)
 Definition get_or_create (cf : config) (st : state) (s : N) : state * group :=
@@ -378,39 +362,16 @@ Definition pull_if_needed_st (st : state) (s : N) (g : group) : state * group * 
   if started then let '(st1, i) := alloc_att st s (pp_rtmp_url (g_pp g1)) in (st1, g1, Some i, r)
   else (st, g1, None, r).
 
-(* settle: the Dels lal's own goroutines report for sessions lal disposed *)
-Definition settle_group (fx : fixes) (sg : N * group) : (N * group) * list notif * list (N * N) :=
-  let '(s, g) := sg in
-  let '(g1, ns, fin) :=
-    match pp_closed (g_pp g) with
-    | Some a => let g1 := pull_del fx g a in (g1, [note NPullStop (WAtt s a) g1], [(s, a)])
-    | None => (g, [], [])
-    end in
-  let g2 := match g_ps_closed g1 with Some n => ps_del g1 n | None => g1 end in
-  ((s, g2), ns, fin).
-
-Fixpoint settle_groups (fx : fixes) (l : list (N * group)) : list (N * group) * list notif * list (N * N) :=
-  match l with
-  | [] => ([], [], [])
-  | sg :: t =>
-    let '(sg1, n1, f1) := settle_group fx sg in
-    let '(t1, n2, f2) := settle_groups fx t in
-    (sg1 :: t1, n1 ++ n2, f1 ++ f2)
+(* stopPull followed by the Del the pull goroutine reports for the disposed session *)
+Definition stop_and_del (fx : fixes) (s : N) (g : group) : group * option N * list notif :=
+  let '(g1, a) := stop_pull g in
+  match a with
+  | Some i => let g2 := pull_del fx g1 i in (g2, Some i, [note NPullStop (WAtt s i) g2])
+  | None => (g1, None, [])
   end.
 
-Fixpoint finish_atts (l : list (N * N)) (a : list att) : list att :=
-  match l with
-  | [] => a
-  | (s, i) :: t => finish_atts t (upd_att s i AFinished a)
-  end.
-
-Definition ps_gone (l : list (N * group)) (ss : list sess) : list sess :=
-  fold_left (fun acc sg => match g_ps_closed (snd sg) with Some n => upd_sess n s_set_closed_gone acc | None => acc end) l ss.
-
-Definition settle (fx : fixes) (st : state) : state * list notif :=
-  let ss := ps_gone (st_groups st) (st_sess st) in
-  let '(gs, ns, fin) := settle_groups fx (st_groups st) in
-  (st_set_atts (st_set_sess (st_set_groups st gs) ss) (finish_atts fin (st_atts st)) (st_cnt st), ns).
+Definition finish_att (st : state) (s : N) (a : option N) : state :=
+  match a with Some i => set_att st s i AFinished | None => st end.
 
 (* ---- arrivals ------------------------------------------------------------------------- *)
 Definition fresh (st : state) (n : N) : bool := negb (is_some (find_sess n (st_sess st))).
@@ -494,9 +455,7 @@ Definition depart_sub (st : state) (k : subk) (s n : N) : state * list notif :=
   end.
 
 (* ---- Group.Dispose ------------------------------------------------------------------------- *)
-Definition dispose_group (g : group) : group :=
-  let g1 := match g_ps g with Some n => g_set_ps_closed g (Some n) | None => g end in
-  del_in (g_set_disposed (g_set_subs g1 [])).
+Definition dispose_group (g : group) : group := del_in (g_set_disposed (g_set_subs g [])).
 Definition closed_by_dispose (fx : fixes) (g : group) : list N :=
   (if fx_f26 fx then match g_cust g with Some n => [n] | None => [] end else [])
   ++ (match g_rtmp g with Some n => [n] | None => [] end)
@@ -505,22 +464,31 @@ Definition closed_by_dispose (fx : fixes) (g : group) : list N :=
   ++ map snd (g_subs g).
 
 (* ---- tick ------------------------------------------------------------------------------------- *)
-Fixpoint tick_groups (now : Z) (l : list (N * group)) (atts : list att) (cnt : list (N * N))
-  : list (N * group) * list att * list (N * N) :=
+(* Group.Tick followed by the Del of a pull session the tick disposed *)
+Definition tick_group (fx : fixes) (s : N) (g : group) (now : Z) : group * bool * option N * list notif :=
+  let '(g1, started, a) := tick_pull g now in
+  let g2 := start_push g1 in
+  match a with
+  | Some i => let g3 := pull_del fx g2 i in (g3, started, Some i, [note NPullStop (WAtt s i) g3])
+  | None => (g2, started, None, [])
+  end.
+
+Fixpoint tick_groups (fx : fixes) (now : Z) (l : list (N * group)) (atts : list att) (cnt : list (N * N))
+  : list (N * group) * list att * list (N * N) * list notif :=
   match l with
-  | [] => ([], atts, cnt)
+  | [] => ([], atts, cnt, [])
   | (s, g) :: t =>
-    if inactive g now then tick_groups now t atts cnt     (* Dispose of an empty group, erased from the manager *)
+    if inactive g now then tick_groups fx now t atts cnt     (* Dispose of an empty group, erased from the manager *)
     else
-      let '(g1, started) := tick_pull g now in
+      let '(g1, started, fin, ns) := tick_group fx s g now in
       let '(atts1, cnt1) :=
         if started then
           let i := match lookup s cnt with Some c => c + 1 | None => 1 end in
           (atts ++ [mk_att s i (pp_rtmp_url (g_pp g1)) AHeld], update s i cnt)
         else (atts, cnt) in
-      let g2 := start_push g1 in
-      let '(t1, atts2, cnt2) := tick_groups now t atts1 cnt1 in
-      ((s, g2) :: t1, atts2, cnt2)
+      let atts2 := match fin with Some i => upd_att s i AFinished atts1 | None => atts1 end in
+      let '(t1, atts3, cnt3, ns2) := tick_groups fx now t atts2 cnt1 in
+      ((s, g1) :: t1, atts3, cnt3, ns ++ ns2)
   end.
 
 (* ---- media ---------------------------------------------------------------------------------- *)
@@ -544,27 +512,28 @@ Definition deliver (st : state) (gid : option N) : list N :=
   end.
 
 (* ---- kick ------------------------------------------------------------------------------------ *)
-Definition kick_group (st : state) (s : N) (g : group) (t : ktarget) : state * bool :=
+Definition kick_group (fx : fixes) (st : state) (s : N) (g : group) (t : ktarget) : state * bool * list notif :=
   match t with
   | KAtt s' i =>
     if N.eqb s' s && (opt_is (pp_rtmp (g_pp g)) i || opt_is (pp_rtsp (g_pp g)) i) then
-      let '(g1, _) := stop_pull (g_set_pp g (pp_set_api (g_pp g) false)) in
-      (put_group st s g1, true)
-    else (st, false)
+      let '(g1, a, ns) := stop_and_del fx s (g_set_pp g (pp_set_api (g_pp g) false)) in
+      (finish_att (put_group st s g1) s a, true, ns)
+    else (st, false, [])
   | KConn n =>
     match find_sess n (st_sess st) with
-    | None => (st, false)
+    | None => (st, false, [])
     | Some x =>
       match s_kind x with
       | KRtmpPub | KRtmpSub =>
-        if opt_is (g_rtmp g) n || in_subs SkRtmp n (g_subs g) then (close_sess st n, true) else (st, false)
-      | KRtspPub => if opt_is (g_rtsp g) n then (close_sess st n, true) else (st, false)
+        if opt_is (g_rtmp g) n || in_subs SkRtmp n (g_subs g) then (close_sess st n, true, []) else (st, false, [])
+      | KRtspPub => if opt_is (g_rtsp g) n then (close_sess st n, true, []) else (st, false, [])
       | KPsPub =>
-        if opt_is (g_ps g) n then (put_group (close_sess st n) s (g_set_ps_closed g (Some n)), true) else (st, false)
-      | KFlvSub => if in_subs SkFlv n (g_subs g) then (close_sess st n, true) else (st, false)
-      | KTsSub => if in_subs SkTs n (g_subs g) then (close_sess st n, true) else (st, false)
-      | KRtspSub => if in_subs SkRtsp n (g_subs g) then (close_sess st n, true) else (st, false)
-      | KCustPub => (st, false)
+        (* Dispose; the PS session's RunLoop returns and DelPsPubSession follows *)
+        if opt_is (g_ps g) n then (put_group (close_sess st n) s (ps_del g n), true, []) else (st, false, [])
+      | KFlvSub => if in_subs SkFlv n (g_subs g) then (close_sess st n, true, []) else (st, false, [])
+      | KTsSub => if in_subs SkTs n (g_subs g) then (close_sess st n, true, []) else (st, false, [])
+      | KRtspSub => if in_subs SkRtsp n (g_subs g) then (close_sess st n, true, []) else (st, false, [])
+      | KCustPub => (st, false, [])
       end
     end
   end.
@@ -577,6 +546,15 @@ Fixpoint upd_nth {A} (i : nat) (f : A -> A) (l : list A) : list A :=
   | x :: t, S j => x :: upd_nth j f t
   end.
 
+Definition push_apply (g : group) (t : nat) (next : push) : group :=
+  g_set_push g (upd_nth t (fun _ => next) (g_push g)).
+
+(* Add*PullSession: the attempt becomes the input *)
+Definition attach_pull (g : group) (rt : bool) (i : N) : group :=
+  let p := g_pp g in
+  g_set_pp g (if rt then pp_set_run p (pp_pulling p) (Some i) (pp_rtsp p)
+              else pp_set_run p (pp_pulling p) (pp_rtmp p) (Some i)).
+
 Definition push_event (st : state) (s : N) (t : nat) (want_att : bool) (next : push) : state * result :=
   match get_group st s with
   | None => (st, RBad)
@@ -584,14 +562,14 @@ Definition push_event (st : state) (s : N) (t : nat) (want_att : bool) (next : p
     match nth_error (g_push g) t with
     | Some p =>
       if pu_pushing p && Bool.eqb (pu_att p) want_att
-      then (put_group st s (g_set_push g (upd_nth t (fun _ => next) (g_push g))), RNone)
+      then (put_group st s (push_apply g t next), RNone)
       else (st, RBad)
     | None => (st, RBad)
     end
   end.
 
 (* ---- one event ------------------------------------------------------------------------------------ *)
-Definition step_core (fx : fixes) (cf : config) (st : state) (e : event) : state * result * list notif :=
+Definition step (fx : fixes) (cf : config) (st : state) (e : event) : state * result * list notif :=
   match e with
   | ERtmpPub s n deny =>
     if negb (fresh st n) then (st, RBad, [])
@@ -691,8 +669,8 @@ Definition step_core (fx : fixes) (cf : config) (st : state) (e : event) : state
     match get_group st s with
     | None => (st, RCode code_group_not_found RsNone None, [])
     | Some g =>
-      let '(st1, ok) := kick_group st s g t in
-      (st1, RCode (if ok then 0 else code_session_not_found) RsNone None, [])
+      let '(st1, ok, ns) := kick_group fx st s g t in
+      (st1, RCode (if ok then 0 else code_session_not_found) RsNone None, ns)
     end
   | EStartPull s retry autostop rtmp =>
     let '(st1, g) := get_or_create cf st s in
@@ -707,12 +685,12 @@ Definition step_core (fx : fixes) (cf : config) (st : state) (e : event) : state
     match get_group st s with
     | None => (st, RCode code_group_not_found RsNone None, [])
     | Some g =>
-      let '(g1, a) := stop_pull (g_set_pp g (pp_set_api (g_pp g) false)) in
-      (put_group st s g1,
+      let '(g1, a, ns) := stop_and_del fx s (g_set_pp g (pp_set_api (g_pp g) false)) in
+      (finish_att (put_group st s g1) s a,
        match a with
        | Some i => RCode 0 RsNone (Some (s, i))
        | None => RCode code_session_not_found RsNone None
-       end, [])
+       end, ns)
     end
   | EPullSucc s i =>
     match find_att s i (st_atts st), get_group st s with
@@ -725,10 +703,7 @@ Definition step_core (fx : fixes) (cf : config) (st : state) (e : event) : state
           (set_att (put_group st s g1) s i AFinished, RNone, [note NPullStop (WAtt s i) g1])
         else
           let '(st1, pipe) := next_pipe st in
-          let p := g_pp g in
-          let g0 := g_set_pp g (if a_rtmp a then pp_set_run p (pp_pulling p) (Some i) (pp_rtsp p)
-                                else pp_set_run p (pp_pulling p) (pp_rtmp p) (Some i)) in
-          let g1 := add_in pipe g0 in
+          let g1 := add_in pipe (attach_pull g (a_rtmp a) i) in
           (set_att (put_group st1 s g1) s i AAttached, RNone, [note NPullStart (WAtt s i) g1])
       | _ => (st, RBad, [])
       end
@@ -767,8 +742,8 @@ Definition step_core (fx : fixes) (cf : config) (st : state) (e : event) : state
   | ETick _ =>
     if st_disposed st then (st, RBad, [])        (* Dispose made RunLoop (the ticker) return *)
     else
-    let '(gs, atts, cnt) := tick_groups (st_now st) (st_groups st) (st_atts st) (st_cnt st) in
-    (st_set_atts (st_set_groups st gs) atts cnt, RNone, [])
+    let '(gs, atts, cnt, ns) := tick_groups fx (st_now st) (st_groups st) (st_atts st) (st_cnt st) in
+    (st_set_atts (st_set_groups st gs) atts cnt, RNone, ns)
   | EAdvance ms => (st_set_now st (st_now st + ms)%Z, RNone, [])
   | EDispose =>
     if st_disposed st then (st, RBad, [])
@@ -788,11 +763,6 @@ Definition step_core (fx : fixes) (cf : config) (st : state) (e : event) : state
       end
     end
   end.
-
-Definition step (fx : fixes) (cf : config) (st : state) (e : event) : state * result * list notif :=
-  let '(st1, r, ns) := step_core fx cf st e in
-  let '(st2, ns2) := settle fx st1 in
-  (st2, r, ns ++ ns2).
 
 (* ---- runs ----------------------------------------------------------------------------------------- *)
 Fixpoint run (fx : fixes) (cf : config) (st : state) (h : list event) : state * list notif :=
